@@ -192,6 +192,17 @@ def successors(sim, ld, ref, ops):
             yield op, c, apply_ref(ref, op)
 
 
+def _follows_rejection_protocol(r):
+    """propose (random.choice) / test (one uniform comparison) pairs only, every test so far answered "reject"."""
+    kinds = [t[0] for t in r.trace]
+    if len(kinds) < 2 or len(kinds) % 2:
+        return False
+    for i in range(0, len(kinds), 2):
+        if kinds[i] != "choice" or kinds[i + 1] != "U" or r.trace[i + 1][2] != 1:
+            return False
+    return True
+
+
 def run_persist(spec):
     """One scheduled execution: the light candidate is proposed and rejected `persist` times in a row (an event of
     positive probability), then the default answers are taken.  choose_random must keep proposing and finally
@@ -211,6 +222,10 @@ def run_persist(spec):
     hist = ["%d consecutive rejected proposals of 'light' (weight %g, heavy weight 1)" % (nrej, spec["ratio"])]
     if r.exc is not None:
         A.add(V("C16", "_ListDict_", "rejections", "select_exception", "after %s choose_random raised %r" % (hist[0], r.exc), hist))
+    elif (r.short is not None or ntry != nrej + 1) and not _follows_rejection_protocol(r):
+        # another (possibly perfectly good) selection algorithm: the scheduled answers do not mean "reject" to it - not judged here,
+        # the exhaustive part above decides its selection law
+        A.count["other_algorithm"] = 1
     elif r.short is not None or ntry != nrej + 1:
         A.add(V("C16", "_ListDict_", "rejections", "gives_up", "choose_random stopped proposing after %d attempts and returned %r although every proposal so far had been rejected (%d rejections were scheduled): the returned candidate is not drawn in proportion to the weights" % (ntry, r.out, nrej), hist))
     elif r.out != "heavy":
